@@ -58,7 +58,11 @@ def lookup_semantics(prog, rep):
                 return ("row",)
         return ("other", repr(v))
 
-    err = common.exact_lookup(outs, "cp", "u32", rows, None, decode)
+    try:
+        err = common.exact_lookup(outs, "cp", "u32", rows, None, decode)
+    except AnalysisError as e:
+        rep.analysis_error("lookup", key, e, b.where())
+        return
     if err is None and (w.findings or w.probe_panics):
         err = "; ".join([f["detail"] for f in w.findings[:2]] + [str(p) for p in w.probe_panics[:1]])
     rep.ob("lookup", "get_decomposition_mapping(cp) = Some(the table's mapping of cp), None when not listed — for every code point (%d paths)" % len(outs), err is None, err or "", b.where(), key="lookup|semantics", sample=True)
